@@ -99,6 +99,12 @@ type sClose struct {
 	err bool
 }
 
+func (s *sRound) recoverPanic() {
+	if r := recover(); r != nil {
+		s.setFail(fmt.Sprintf("panic: %v", r))
+	}
+}
+
 func (s *sRound) setFail(f string) {
 	s.fail.CompareAndSwap(nil, f)
 }
@@ -290,6 +296,7 @@ func barrierRound(rng *rand.Rand, res *StressResult) string {
 		wg.Add(1)
 		go func() {
 			defer wg.Done()
+			defer s.recoverPanic()
 			ready.Add(1)
 			for spins := 0; start.Load() == 0; spins++ {
 				if spins%2000 == 1999 {
@@ -350,6 +357,7 @@ func soakRound(rng *rand.Rand, res *StressResult) string {
 		doClose := i < closers
 		go func() {
 			defer wg.Done()
+			defer s.recoverPanic()
 			n := 10 + lr.Intn(50)
 			closeAt := lr.Intn(n)
 			base := 0
@@ -379,7 +387,7 @@ func soakRound(rng *rand.Rand, res *StressResult) string {
 	}
 	// quiescence, then the final Close flushes what is left
 	done := make(chan struct{})
-	go func() { s.close(); close(done) }()
+	go func() { defer close(done); defer s.recoverPanic(); s.close() }()
 	select {
 	case <-done:
 	case <-time.After(stressWatchdog):
@@ -427,11 +435,13 @@ func concStressChild(ctx *Ctx, out string) error {
 }
 
 type stressHandle struct {
-	cfg  StressCfg
-	done chan struct{}
-	res  *StressResult
-	note string
-	race string // DATA RACE report excerpt
+	cfg     StressCfg
+	done    chan struct{}
+	res     *StressResult
+	note    string // why the race child could not be built (stress then runs in-process)
+	race    string // DATA RACE report excerpt
+	crash   string // the child died of a Go runtime fatal error / panic
+	failure string // the child failed for an unexplained reason (infrastructure)
 }
 
 func stressCfgFor(ctx *Ctx) StressCfg {
@@ -477,9 +487,21 @@ func startConcStress(ctx *Ctx) *stressHandle {
 		}
 		b, rerr := os.ReadFile(out)
 		if rerr != nil {
-			if h.race == "" {
-				h.note = fmt.Sprintf("stress child produced no result (%v: %s); stress ran in-process WITHOUT the race detector", err, strings.TrimSpace(lastLine(stderr.String())))
+			if h.race != "" {
+				return
 			}
+			se := stderr.String()
+			for _, mark := range []string{"fatal error:", "panic:"} {
+				if i := strings.Index(se, mark); i >= 0 {
+					rep := se[i:]
+					if len(rep) > 3000 {
+						rep = rep[:3000]
+					}
+					h.crash = rep
+					return
+				}
+			}
+			h.failure = fmt.Sprintf("stress child produced no result (%v): %s", err, lastLine(se))
 			return
 		}
 		var r StressResult
@@ -499,22 +521,26 @@ func lastLine(s string) string {
 }
 
 // finishConcStress waits for the child and records its outcome.
-func finishConcStress(ctx *Ctx, h *stressHandle) {
+func finishConcStress(ctx *Ctx, h *stressHandle) error {
 	<-h.done
 	res := ctx.Res
 	r := h.res
-	if r == nil && h.race == "" {
-		if h.note != "" {
-			res.Note("%s", h.note)
-		}
-		r = concStress(h.cfg) // in-process fallback, no race detector
+	if h.failure != "" {
+		return fmt.Errorf("%s", h.failure)
+	}
+	if h.note != "" { // no race-enabled binary: in-process, without the detector
+		res.Note("%s", h.note)
+		r = concStress(h.cfg)
 	}
 	in := CCase{Kind: "stress", Stress: &h.cfg}
+	if h.crash != "" {
+		res.Violate(common.Violation{Kind: "monitor", Clause: "no data races / no crash: the process died during concurrent Push/Maintain/Close (Go runtime fatal error or panic)", Input: in, Impl: h.crash})
+	}
 	if h.race != "" {
 		res.Violate(common.Violation{Kind: "monitor", Clause: "no data races: the race detector reported a data race during concurrent Push/Maintain/Close", Input: in, Impl: h.race})
 	}
 	if r == nil {
-		return
+		return nil
 	}
 	res.HistN("stress_barrier_rounds", r.BarrierRounds)
 	res.HistN("stress_barrier_concurrent_closes", r.ClosesRaced)
@@ -527,4 +553,5 @@ func finishConcStress(ctx *Ctx, h *stressHandle) {
 	for _, v := range r.Violations {
 		res.Violate(common.Violation{Kind: "monitor", Clause: v, Input: in, Impl: "uncontrolled stress run (schedule chosen by the Go runtime); see clause"})
 	}
+	return nil
 }
